@@ -184,6 +184,18 @@ def stress(rng: random.Random, nthreads: int, ncalls: int, nprints: int) -> tupl
     return '\n'.join(lines) + '\n', owners
 
 
+def cancelled_tasks(rng: random.Random) -> tuple[str, dict]:
+    """Traced tasks that end by cancellation: explicitly, and by still being pending when `asyncio.run` returns."""
+    lines = ['import asyncio', '',
+             'async def waiter(i):', "    print('cw', i)", '    try:', '        await asyncio.sleep(30)', '    finally:', "        print('cw', i, 'cancelled')", '',
+             'async def short(i):', '    await asyncio.sleep(0)', "    print('cs', i)", '    return i', '',
+             'async def amain():', '    a = asyncio.create_task(waiter(0))', '    b = asyncio.create_task(waiter(1))',
+             '    c = asyncio.create_task(short(2))', '    await c', '    a.cancel()', '    try:', '        await a',
+             '    except asyncio.CancelledError:', "        print('a cancelled')",
+             "    print('b is left pending')", '', 'asyncio.run(amain())', "print('main done')"]
+    return '\n'.join(lines) + '\n', {}
+
+
 def sequential_tasks(rng: random.Random, n: int) -> tuple[str, dict]:
     """Tasks (and threads) created one after the other, each ended and released before the next one is created: new objects
     are given the addresses of old ones."""
